@@ -43,7 +43,7 @@ from gemato.manifest import ManifestFile
 from gemato.openpgp import GNUPG, GNUPGCONF, IsolatedGPGEnvironment, SystemGPGEnvironment
 from gemato.recursiveloader import ManifestRecursiveLoader
 
-from gverif import gem
+from gverif import gem, seams
 from gverif.common import fresh_root
 from gverif.evidence import Stats
 
@@ -353,7 +353,7 @@ class FakeBackend:
         return _FakeProc(self)
 
 
-class _FakeProc:
+class _FakeProc(seams.PopenLike):
     def __init__(self, fb):
         self.fb = fb
         self.returncode = None
@@ -1734,7 +1734,7 @@ def ev_len(tier):
     return 3 if tier == 'quick' else 4
 
 
-class _ScriptProc:
+class _ScriptProc(seams.PopenLike):
     def __init__(self, out, exit_):
         self._out, self._exit = out, exit_
         self.returncode = None
